@@ -2,12 +2,14 @@
 """Generate Sm9/Gen/Equiv.lean: one theorem per translated Rust function stating that the
 definition generated from the *current* source equals the hand-written model definition the
 property theorems are about.  Regenerated on every run (from Gen/rs2lean_report.json)."""
-import json, sys, os
+import json, sys, os, re
 
 # generated name -> model term
 def model_of(ns, fn):
     if ns == 'Fq2' and fn == 'from_slice':
         return '@Sm9.fq2FromSliceE'      # SPEC (Gen/Support.lean): the model's `Api.fq2FromSlice` with the source's errors
+    if ns in ('Fq2', 'Fq4', 'Fq12') and fn == 'random':
+        return f'@Sm9.{ns}.randomS'      # SPEC (Gen/Support.lean): components drawn in source order from a script of draws
     if ns in ('Fq2', 'Fq4', 'Fq12'):
         if fn == 'frobenius_map':
             return None
@@ -16,9 +18,29 @@ def model_of(ns, fn):
         if ns == 'Fq12' and fn == 'pow':
             return '@Sm9.Fq12.pow_u128'
         return f'@Sm9.{ns}.{fn}'
+    if ns in ('G1', 'G2') and fn in G_PLUMBING:
+        F = 'Fq' if ns == 'G1' else 'Fq2'
+        if fn == 'new':
+            return f'@Sm9.G.new {F}'
+        if fn == 'one':
+            return f'@Sm9.G.one {F} _ _'
+        if fn == 'random':
+            return f'@Sm9.G.randomS {F} _ _'                      # SPEC (Gen/Support.lean)
+        if fn in ('x', 'y', 'z'):
+            return f'(fun (p : G {F}) => p.{fn})'
+        if fn.endswith('_mut'):
+            return f'(fun (p : G {F}) => (p, p.{fn[0]}))'         # SPEC: `x_mut` leaves the point unchanged and designates the field `x`
+        return f'(fun (p : G {F}) => p)'                          # SPEC: `clone` is the identity
     if ns in ('G1', 'G2'):
         F = 'Fq' if ns == 'G1' else 'Fq2'
         return f'@Sm9.G.{fn} {F} _'
+    if re.fullmatch(r'G[12]Add(ValRef|RefVal|AssignVal|AssignRef)', ns):
+        F = 'Fq' if ns[1] == '1' else 'Fq2'
+        return f'@Sm9.G.add {F} _'                                # every reference / assign form of `+` is `G.add`
+    if ns in ('G1Params', 'G2Params'):
+        F = 'Fq' if ns == 'G1Params' else 'Fq2'
+        return {'name': '"G1"' if ns == 'G1Params' else '"G2"',   # SPEC
+                'one': f'@Sm9.G.one {F} _ _', 'coeff_b': f'(GroupParams.coeff_b : {F})', 'check_order': f'GroupParams.check_order {F}'}.get(fn)
     if ns == 'G2m':
         return f'@Sm9.G2m.{fn}'
     if ns == 'G2Prepared':
@@ -76,10 +98,31 @@ def model_of(ns, fn):
         return {'from': '@Sm9.Api.prepare', 'pairing': '@Sm9.Api.preparedPairing'}.get(fn)
     if ns == 'Lib':
         return f'@Sm9.Api.{fn}'
+    if ns in ('AffineG1', 'AffineG2') and fn in ('x', 'y', 'x_mut', 'y_mut', 'clone', 'neg', 'eq'):
+        F = 'Fq' if ns == 'AffineG1' else 'Fq2'
+        if fn in ('x', 'y'):
+            return f'(fun (a : AffineG {F}) => a.{fn})'
+        if fn.endswith('_mut'):
+            return f'(fun (a : AffineG {F}) => (a, a.{fn[0]}))'   # SPEC: designates the field
+        if fn == 'clone':
+            return f'(fun (a : AffineG {F}) => a)'                # SPEC
+        if fn == 'neg':
+            return f'@Sm9.AffineG.neg {F} _'
+        return f'(fun (a b : AffineG {F}) => decide (a = b))'     # SPEC: `PartialEq` is structural equality
     if ns in ('AffineG1', 'AffineG2'):
         F = 'Fq' if ns == 'AffineG1' else 'Fq2'
         return f'@Sm9.AffineG.{fn} {F} _ _' if fn == 'new' else f'@Sm9.AffineG.{fn} {F} _'
     return None
+
+G_PLUMBING = ('new', 'x', 'y', 'z', 'x_mut', 'y_mut', 'z_mut', 'clone', 'one', 'random')
+
+def ops_statement(fn):
+    """`Ops.<op>[_assign]_<forms>`: the intended meaning of an operator form is the inplace function of its family (SPEC)"""
+    fam = fn.split('_')[0]
+    binders = '(T : Type) (add_inplace sub_inplace mul_inplace : T → T → T) (neg_inplace : T → T)'
+    if fam == 'neg':
+        return f'fun {binders} (self : T) => neg_inplace self'
+    return f'fun {binders} (self rhs : T) => {fam}_inplace self rhs'
 
 FROB = {'Fq4': ['10', '11', '12', '21', '22', '30', '31', '32'], 'Fq12': ['1', '2', '3', '6']}
 
@@ -258,6 +301,7 @@ SPECIAL = {
 
 def main(gen_dir, exclude=()):
     rep = json.load(open(os.path.join(gen_dir, 'rs2lean_report.json')))
+    rust_text = open(os.path.join(gen_dir, 'Rust.lean')).read() if os.path.exists(os.path.join(gen_dir, 'Rust.lean')) else ''
     L = ['-- GENERATED by tools/gen_equiv.py on every run — do not edit.',
          'import Sm9.Gen.Rust', 'import Sm9.Gen.EquivTactics',
          '/-! Every definition translated from the current Rust source equals the model definition. -/',
@@ -293,7 +337,7 @@ def main(gen_dir, exclude=()):
             L.append(f'theorem {nm} (a : {ns}) : Sm9.Gen.{ns}.to_slice a = .ok (Sm9.Api.{low}ToSlice a) := by\n  unfold Sm9.Gen.{ns}.to_slice Sm9.Api.{low}ToSlice\n  exact {pf}')
             names.append(nm)
             continue
-        m = model_of(ns, fn)
+        m = ops_statement(fn) if ns == 'Ops' else model_of(ns, fn)
         if m is None:
             continue
         nm = f'{ns}_{fn}'
@@ -306,7 +350,15 @@ def main(gen_dir, exclude=()):
             L.append(f'theorem {nm} (s : G2Prepared) : @Sm9.Gen.{ns}.{fnl} s = {m} := by equiv_rfl')
             names.append(nm)
             continue
-        if ns in ('G1', 'G2'):
+        if ns == 'Ops':
+            default = 'rfl'
+        elif ns in ('G1', 'G2') and fn in G_PLUMBING:
+            default = 'equiv_rfl'
+        elif ns in ('AffineG1', 'AffineG2') and fn == 'eq':
+            default = f'affine_eq_equiv Sm9.Gen.{ns}.eq'
+        elif ns in ('Fq2', 'Fq4', 'Fq12') and fn == 'random':
+            default = 'equiv_rfl'
+        elif ns in ('G1', 'G2'):
             default = f'g_tac Sm9.Gen.{ns}.{fnl} Sm9.G.{fn}'
         elif ns in ('Fq2', 'Fq4', 'Fq12') and not fn.startswith('final_'):
             default = f'equiv_tac Sm9.Gen.{ns}.{fnl} Sm9.{ns}.{fn}'
@@ -317,6 +369,18 @@ def main(gen_dir, exclude=()):
         tac = SPECIAL.get(key, default)
         L.append(f'theorem {nm} : @Sm9.Gen.{ns}.{fnl} = {m} := by {tac}')
         names.append(nm)
+        if key in ('G1Params.coeff_b', 'G2Params.coeff_b') and f'{nm}_value' not in exclude:
+            # SPEC: the curve is y² = x³ + 5 (G2: the twist coefficient 5·u) — holds whatever constant the source and hence Consts.lean carry
+            val = 'Sm9.Fq.ofNat 5' if ns == 'G1Params' else '({ c0 := 0, c1 := Sm9.Fq.ofNat 5 } : Fq2)'
+            L.append(f'theorem {nm}_value : Sm9.Gen.{ns}.coeff_b = {val} := by first | rfl | decide +kernel')
+            names.append(f'{nm}_value')
+        if key in ('G1Params.one', 'G2Params.one') and f'{nm}_unwrap_ok' not in exclude:
+            # side condition of reading `Fq::from_slice(&CONST).unwrap()` as `Fq.ofNat CONST`: the strict decoder accepts the constant
+            d = re.search(r'^def ' + re.escape(f'{ns}.one') + r'\b.*?(?=^def |^/-- |\Z)', rust_text, flags=re.S | re.M)
+            cs = sorted(set(re.findall(r'Sm9\.Fq\.ofNat Consts\.(\w+)', d.group(0)))) if d else []
+            if cs:
+                L.append(f'theorem {nm}_unwrap_ok : ' + ' ∧ '.join(f'Consts.{c} < Consts.FQ' for c in cs) + ' := by decide')
+                names.append(f'{nm}_unwrap_ok')
         if key == 'Fq2.from_slice' and f'{nm}_toOption' not in exclude:
             # against the model's decoder, which keeps `Option`
             L.append(f'theorem {nm}_toOption (s : List UInt8) : (Sm9.Gen.Fq2.from_slice s).toOption = Sm9.Api.fq2FromSlice s := by\n  rw [{nm}]; exact fq2FromSliceE_toOption s')
